@@ -1,586 +1,37 @@
-// C09 conformance harness: drives fcppt::container::tree::object<int> through operation
-// histories over a forest of 4 slots, with operands chosen among ALL live nodes (roots and
-// inner nodes), and records after every operation a DFS dump of every slot: label, child
-// count, the node parent() refers to (looked up by address among all live nodes), the
-// outputs of pre_order / to_root / depth / level / child_position / map / == / !=.
+// C09 conformance harness: drives fcppt::container::tree::object<L> through operation histories
+// over a forest of 4 slots, with operands chosen among ALL live nodes (roots and inner nodes),
+// and records after every operation a DFS dump of every slot (see c09_forest.hpp): label, child
+// count, the node parent() refers to (looked up by address among all live nodes), the outputs of
+// pre_order / to_root (const and non-const, iterator protocol) / depth / level / child_position /
+// map (copyable and move-only result) / operator<< / == / !=.
+// Label types L: int, std::string, std::unique_ptr<int> (move-only), tree<int> (nested).
 // It contains no expected values: spec/TreeTrace.tla (TLC) is the judge.
 //
-//   c09_tree record OUT seed histories maxlen [assign-from-descendant 0|1]
-//   c09_tree replay SCRIPTS.ndjson OUT      (one JSON array of op records per line)
-#include <common/vjson.hpp>
-
-#include <fcppt/reference_impl.hpp>
-#include <fcppt/container/tree/child_position.hpp>
-#include <fcppt/container/tree/comparison.hpp>
-#include <fcppt/container/tree/depth.hpp>
-#include <fcppt/container/tree/level.hpp>
-#include <fcppt/container/tree/make_pre_order.hpp>
-#include <fcppt/container/tree/make_to_root.hpp>
-#include <fcppt/container/tree/map.hpp>
-#include <fcppt/container/tree/object.hpp>
-#include <fcppt/container/tree/pre_order.hpp>
-#include <fcppt/container/tree/to_root.hpp>
-#include <fcppt/optional/object.hpp>
-#include <fcppt/optional/reference.hpp>
-
-#include <iterator>
-#include <map>
-#include <optional>
+//   c09_tree record OUT seed histories maxlen [assign-from-descendant 0|1] [int|str|uptr|tree]
+//   c09_tree replay SCRIPTS.ndjson OUT [int|str|uptr|tree] [stride] [phase]
+#include <cstdio>
 #include <string>
-#include <utility>
-#include <vector>
 
-namespace
-{
-using tree = fcppt::container::tree::object<int>;
-using ltree = fcppt::container::tree::object<long>;
-
-constexpr int NS = 4;
-constexpr std::size_t max_nodes = 14; // the generator does not grow the forest beyond this
-std::optional<tree> slots[NS + 1];
-bool drive_assign_from_descendant = true; // record mode, 6th argument 0 switches it off
-
-struct Op
-{
-  std::string op;
-  int as = 0, bs = 0, d = 0;
-  std::vector<int> ap, bp, ss;
-  long pos = 0, pos2 = 0, x = 0;
-  bool rv = false;
-};
-
-// ------------------------------------------------------------------ address table
-struct Entry
-{
-  tree *ptr;
-  tree *lister; // the node whose children() contains ptr (nullptr for a slot root)
-  int slot;
-  int idx; // DFS index within the slot
-  std::vector<int> path;
-};
-
-std::vector<Entry> table;
-std::map<tree const *, long> refs; // address -> slot * 1000 + DFS index
-
-void collect(tree &t, tree *lister, int slot, std::vector<int> &path, int &idx)
-{
-  table.push_back(Entry{&t, lister, slot, idx, path});
-  refs[&t] = static_cast<long>(slot) * 1000 + idx;
-  ++idx;
-  int i = 0;
-  for (tree &c : t)
-  {
-    path.push_back(i++);
-    collect(c, &t, slot, path, idx);
-    path.pop_back();
-  }
-}
-
-void rebuild_table()
-{
-  table.clear();
-  refs.clear();
-  for (int s = 1; s <= NS; ++s)
-    if (slots[s].has_value())
-    {
-      std::vector<int> path;
-      int idx = 0;
-      collect(*slots[s], nullptr, s, path, idx);
-    }
-}
-
-// -1 = null, -2 = not the address of a live node
-long ref_of(tree const *p)
-{
-  if (p == nullptr) return -1;
-  auto it = refs.find(p);
-  return it == refs.end() ? -2 : it->second;
-}
-
-template <typename OptRef>
-long ref_of_opt(OptRef const &r)
-{
-  return r.has_value() ? ref_of(&r.get_unsafe().get()) : -1;
-}
-
-tree &node_at(int s, std::vector<int> const &p)
-{
-  tree *t = &*slots[s];
-  for (int i : p)
-  {
-    tree::iterator it = t->begin();
-    std::advance(it, i);
-    t = &*it;
-  }
-  return *t;
-}
-
-// ------------------------------------------------------------------ dump
-// DFS dump [v, nk, par] of a mapped tree (a temporary with its own addresses)
-void dump_mapped(ltree const &t, ltree const *lister, std::map<ltree const *, long> &ids, vj::J &out)
-{
-  long const my = static_cast<long>(ids.size());
-  ids[&t] = my;
-  long nk = 0;
-  for (auto it = t.children().begin(); it != t.children().end(); ++it) ++nk;
-  long par = -1;
-  auto p = t.parent();
-  if (p.has_value())
-  {
-    auto f = ids.find(&p.get_unsafe().get());
-    par = f == ids.end() ? -2 : f->second;
-  }
-  (void)lister;
-  out.el_raw(vj::J().kv("v", t.value()).kv("nk", nk).kv("par", par).str());
-  for (ltree const &c : t.children()) dump_mapped(c, &t, ids, out);
-}
-
-std::string state_json()
-{
-  rebuild_table();
-  vj::J sl('[');
-  for (int s = 1; s <= NS; ++s)
-  {
-    vj::J o;
-    o.kv("live", slots[s].has_value());
-    vj::J nodes('[');
-    std::vector<long> pre, prev;
-    vj::J mapped('[');
-    long cpself = 0;
-    if (slots[s].has_value())
-    {
-      for (Entry const &e : table)
-      {
-        if (e.slot != s) continue;
-        tree &t = *e.ptr;
-        tree const &ct = t;
-        vj::J n;
-        long nk = 0;
-        for (auto it = ct.children().begin(); it != ct.children().end(); ++it) ++nk;
-        n.kv("v", ct.value()).kv("nk", nk).kv("sz", ct.size()).kv("em", ct.empty());
-        n.kv("par", ref_of_opt(t.parent()));
-        n.kv("fr", ref_of_opt(ct.front())).kv("bk", ref_of_opt(t.back()));
-        n.kv("d", fcppt::container::tree::depth(ct));
-        // to_root: never follow a link that is not the address of a live node, stop after 64 steps
-        std::vector<long> tr;
-        bool safe = true;
-        {
-          auto const range = fcppt::container::tree::make_to_root(ct);
-          auto it = range.begin();
-          auto const end = range.end();
-          int steps = 0;
-          while (it != end)
-          {
-            tree const &cur = *it;
-            long const r = ref_of(&cur);
-            tr.push_back(r);
-            if (r == -2 || ++steps > 64)
-            {
-              safe = false;
-              break;
-            }
-            ++it;
-          }
-        }
-        n.kv("l", safe ? static_cast<long>(fcppt::container::tree::level(ct)) : -3L);
-        long cp = -1;
-        if (e.lister != nullptr)
-        {
-          auto const pos = fcppt::container::tree::child_position(*e.lister, t);
-          if (pos.has_value()) cp = static_cast<long>(std::distance(e.lister->begin(), pos.get_unsafe()));
-        }
-        n.kv("cp", cp).kv("tr", tr);
-        nodes.el_raw(n.str());
-      }
-      tree &root = *slots[s];
-      for (tree &t : fcppt::container::tree::make_pre_order(root)) pre.push_back(ref_of(&t));
-      tree const &croot = root;
-      for (tree const &t : fcppt::container::tree::make_pre_order(croot)) prev.push_back(t.value());
-      ltree const m = fcppt::container::tree::map<ltree>(croot, [](int const x) { return 2L * x + 1L; });
-      std::map<ltree const *, long> ids;
-      dump_mapped(m, nullptr, ids, mapped);
-      cpself = fcppt::container::tree::child_position(root, root).has_value() ? 1 : 0;
-    }
-    o.raw("nodes", nodes.str()).kv("pre", pre).kv("prev", prev).raw("map", mapped.str()).kv("cpself", cpself);
-    sl.el_raw(o.str());
-  }
-  vj::J eq('['), ne('[');
-  for (int s = 1; s <= NS; ++s)
-  {
-    std::vector<long> e, n;
-    for (int u = 1; u <= NS; ++u)
-    {
-      bool const both = slots[s].has_value() && slots[u].has_value();
-      e.push_back(both ? (*slots[s] == *slots[u] ? 1 : 0) : -1);
-      n.push_back(both ? (*slots[s] != *slots[u] ? 1 : 0) : -1);
-    }
-    eq.el_raw(vj::arr(e));
-    ne.el_raw(vj::arr(n));
-  }
-  return "\"slots\":" + sl.str() + ",\"eq\":" + eq.str() + ",\"ne\":" + ne.str();
-}
-
-// ------------------------------------------------------------------ executing one operation
-void exec(Op const &op)
-{
-  vj::J pre;
-  pre.kv("e", "op").kv("op", op.op).kv("as", op.as).kv("ap", op.ap).kv("bs", op.bs).kv("bp", op.bp).kv("d", op.d);
-  pre.kv("pos", op.pos).kv("pos2", op.pos2).kv("x", op.x).kv("rv", op.rv).kv("ss", op.ss);
-  vj::begin_call(pre.s);
-  std::string const &o = op.op;
-  int const xv = static_cast<int>(op.x);
-  tree const *ret = nullptr;
-  bool has_ret = false;
-  bool some = false;
-  bool rb = false;
-  auto A = [&]() -> tree & { return node_at(op.as, op.ap); };
-  auto B = [&]() -> tree & { return node_at(op.bs, op.bp); };
-  auto at = [](tree &t, long pos) {
-    tree::iterator it = t.begin();
-    std::advance(it, pos);
-    return it;
-  };
-  if (o == "ctor")
-  {
-    if (op.rv) slots[op.d].emplace(static_cast<int>(op.x));
-    else slots[op.d].emplace(xv);
-  }
-  else if (o == "ctor_list")
-  {
-    tree::child_list l;
-    for (int s : op.ss)
-    {
-      l.push_back(std::move(*slots[s]));
-      slots[s].reset();
-    }
-    slots[op.d].emplace(static_cast<int>(op.x), std::move(l));
-  }
-  else if (o == "copy_ctor") slots[op.d].emplace(static_cast<tree const &>(A()));
-  else if (o == "move_ctor") slots[op.d].emplace(std::move(A()));
-  else if (o == "destroy") slots[op.as].reset();
-  else if (o == "push_back")
-  {
-    tree &a = A();
-    ret = op.rv ? &a.push_back(static_cast<int>(op.x)).get() : &a.push_back(xv).get();
-    has_ret = true;
-  }
-  else if (o == "push_front")
-  {
-    tree &a = A();
-    ret = op.rv ? &a.push_front(static_cast<int>(op.x)).get() : &a.push_front(xv).get();
-    has_ret = true;
-  }
-  else if (o == "push_back_tree")
-  {
-    tree &a = A();
-    tree &b = B();
-    ret = &a.push_back(std::move(b)).get();
-    has_ret = true;
-  }
-  else if (o == "push_front_tree")
-  {
-    tree &a = A();
-    tree &b = B();
-    ret = &a.push_front(std::move(b)).get();
-    has_ret = true;
-  }
-  else if (o == "insert")
-  {
-    tree &a = A();
-    if (op.rv) a.insert(at(a, op.pos), static_cast<int>(op.x));
-    else a.insert(at(a, op.pos), xv);
-  }
-  else if (o == "insert_tree")
-  {
-    tree &a = A();
-    tree &b = B();
-    a.insert(at(a, op.pos), std::move(b));
-  }
-  else if (o == "pop_back" || o == "pop_front")
-  {
-    tree &a = A();
-    tree::optional_object r = o == "pop_back" ? a.pop_back() : a.pop_front();
-    some = r.has_value();
-    if (some && op.d != 0) slots[op.d].emplace(std::move(r.get_unsafe()));
-  }
-  else if (o == "erase")
-  {
-    tree &a = A();
-    a.erase(at(a, op.pos));
-  }
-  else if (o == "erase_range")
-  {
-    tree &a = A();
-    a.erase(at(a, op.pos), at(a, op.pos2));
-  }
-  else if (o == "release")
-  {
-    tree &a = A();
-    tree r = a.release(at(a, op.pos));
-    if (op.d != 0) slots[op.d].emplace(std::move(r));
-  }
-  else if (o == "clear") A().clear();
-  else if (o == "sort")
-  {
-    if (op.x == 1) A().sort([](int const l, int const r) { return l > r; });
-    else A().sort();
-  }
-  else if (o == "swap")
-  {
-    tree &a = A();
-    tree &b = B();
-    a.swap(b);
-  }
-  else if (o == "swap_free")
-  {
-    tree &a = A();
-    tree &b = B();
-    swap(a, b); // fcppt::container::tree::swap by ADL
-  }
-  else if (o == "copy_assign")
-  {
-    tree &a = A();
-    tree const &b = B();
-    a = b;
-  }
-  else if (o == "move_assign")
-  {
-    tree &a = A();
-    tree &b = B();
-    a = std::move(b);
-  }
-  else if (o == "set_value")
-  {
-    if (op.rv) A().value(static_cast<int>(op.x));
-    else A().value(xv);
-  }
-  else if (o == "eq")
-  {
-    tree const &a = A();
-    tree const &b = B();
-    rb = (a == b);
-  }
-  else if (o == "ne")
-  {
-    tree const &a = A();
-    tree const &b = B();
-    rb = (a != b);
-  }
-  else
-  {
-    std::fprintf(stderr, "unknown op %s\n", o.c_str());
-    std::exit(3);
-  }
-  std::string const st = state_json(); // rebuilds the address table
-  std::string rest = ",\"ret\":" + std::to_string(has_ret ? ref_of(ret) : -1L);
-  rest += std::string(",\"some\":") + (some ? "true" : "false") + ",\"rb\":" + (rb ? "true" : "false") + "," + st + "}";
-  vj::end_call(rest);
-}
-
-void begin_history(long h) { vj::line(vj::J().kv("e", "reset").kv("h", h)); }
-
-void end_history()
-{
-  vj::begin_call(vj::J().kv("e", "end").s);
-  for (int i = 1; i <= NS; ++i) slots[i].reset();
-  vj::end_call("}");
-}
-
-// ------------------------------------------------------------------ random driver
-bool is_prefix(std::vector<int> const &p, std::vector<int> const &q)
-{
-  if (p.size() > q.size()) return false;
-  for (std::size_t i = 0; i < p.size(); ++i)
-    if (p[i] != q[i]) return false;
-  return true;
-}
-
-std::size_t subtree_size(tree const &t)
-{
-  std::size_t n = 1;
-  for (tree const &c : t.children()) n += subtree_size(c);
-  return n;
-}
-
-std::size_t child_count(tree const &t)
-{
-  return static_cast<std::size_t>(std::distance(t.children().begin(), t.children().end()));
-}
-
-// chooses an operation that is valid in the current state (API preconditions only)
-bool gen(vj::Rng &r, Op &op)
-{
-  rebuild_table();
-  std::vector<int> dead, live;
-  for (int s = 1; s <= NS; ++s) (slots[s].has_value() ? live : dead).push_back(s);
-  std::size_t const total = table.size();
-  auto pick_dead = [&]() { return dead[r.below(dead.size())]; };
-  auto pick_dead0 = [&]() { return (dead.empty() || r.below(4) == 0) ? 0 : pick_dead(); };
-  for (int tries = 0; tries < 200; ++tries)
-  {
-    op = Op{};
-    op.x = static_cast<long>(r.below(4));
-    op.rv = r.coin();
-    int const which = static_cast<int>(r.below(48));
-    if (table.empty() || which < 3)
-    {
-      if (dead.empty() || total >= max_nodes) continue;
-      if (which == 2 && !live.empty())
-      {
-        op.op = "ctor_list";
-        op.d = pick_dead();
-        std::vector<int> cand = live;
-        std::size_t const n = r.below(cand.size() < 2 ? cand.size() + 1 : 3);
-        for (std::size_t i = 0; i < n; ++i)
-        {
-          std::size_t const j = r.below(cand.size());
-          op.ss.push_back(cand[j]);
-          cand.erase(cand.begin() + static_cast<long>(j));
-        }
-        return true;
-      }
-      op.op = "ctor";
-      op.d = pick_dead();
-      return true;
-    }
-    Entry const &a = table[r.below(table.size())];
-    Entry const &b = table[r.below(table.size())];
-    op.as = a.slot;
-    op.ap = a.path;
-    std::size_t const nk = child_count(*a.ptr);
-    bool const same_slot = a.slot == b.slot;
-    bool const related = same_slot && (is_prefix(a.path, b.path) || is_prefix(b.path, a.path));
-    bool const b_above_a = same_slot && is_prefix(b.path, a.path);
-    // the source of an assignment may be a proper descendant of the destination ("replace a node
-    // by one of its children"); it may not be the destination itself or one of its ancestors
-    bool const assignable = !related || (drive_assign_from_descendant && !b_above_a);
-    auto with_b = [&]() { op.bs = b.slot; op.bp = b.path; };
-    switch (which)
-    {
-    case 3: case 4:
-      if (dead.empty() || total + subtree_size(*a.ptr) > max_nodes) continue;
-      op.op = "copy_ctor"; op.d = pick_dead(); return true;
-    case 5:
-      if (dead.empty() || total >= max_nodes) continue;
-      op.op = "move_ctor"; op.d = pick_dead(); return true;
-    case 6:
-      if (!a.path.empty() || r.below(3) != 0) continue;
-      op.op = "destroy"; return true;
-    case 7: case 8: case 9: case 10:
-      if (total >= max_nodes) continue;
-      op.op = r.coin() ? "push_back" : "push_front"; return true;
-    case 11: case 12: case 13:
-      if (total >= max_nodes || b_above_a) continue;
-      op.op = r.coin() ? "push_back_tree" : "push_front_tree"; with_b(); return true;
-    case 14: case 15: case 16:
-      if (total >= max_nodes) continue;
-      op.op = "insert"; op.pos = static_cast<long>(r.below(nk + 1)); return true;
-    case 17: case 18:
-      if (total >= max_nodes || b_above_a) continue;
-      op.op = "insert_tree"; op.pos = static_cast<long>(r.below(nk + 1)); with_b(); return true;
-    case 19: case 20:
-      op.op = r.coin() ? "pop_back" : "pop_front"; op.d = pick_dead0(); return true;
-    case 21: case 22:
-      if (nk == 0) continue;
-      op.op = "erase"; op.pos = static_cast<long>(r.below(nk)); return true;
-    case 23:
-      op.op = "erase_range"; op.pos = static_cast<long>(r.below(nk + 1));
-      op.pos2 = op.pos + static_cast<long>(r.below(nk - static_cast<std::size_t>(op.pos) + 1)); return true;
-    case 24: case 25:
-      if (nk == 0) continue;
-      op.op = "release"; op.pos = static_cast<long>(r.below(nk)); op.d = pick_dead0(); return true;
-    case 26:
-      if (r.below(3) != 0) continue;
-      op.op = "clear"; return true;
-    case 27: case 28:
-      op.op = "sort"; op.x = static_cast<long>(r.below(2)); return true;
-    case 29: case 30: case 31: case 32:
-      if (related) continue;
-      op.op = r.coin() ? "swap" : "swap_free"; with_b(); return true;
-    case 33: case 34: case 35: case 36:
-      if (!assignable || total + subtree_size(*b.ptr) > max_nodes + subtree_size(*a.ptr)) continue;
-      op.op = "copy_assign"; with_b(); return true;
-    case 37: case 38: case 39: case 40:
-      if (!assignable) continue;
-      op.op = "move_assign"; with_b(); return true;
-    case 41: case 42: case 43:
-      op.op = "set_value"; return true;
-    case 44: case 45:
-      op.op = r.coin() ? "eq" : "ne"; with_b(); return true;
-    default:
-      if (total >= max_nodes) continue;
-      op.op = "push_back"; return true;
-    }
-  }
-  return false;
-}
-
-Op from_json(vj::V const &v)
-{
-  Op op;
-  op.op = v.str("op");
-  op.as = static_cast<int>(v.num_or("as", 0));
-  op.bs = static_cast<int>(v.num_or("bs", 0));
-  op.d = static_cast<int>(v.num_or("d", 0));
-  if (v.has("ap")) for (long long q : v.nums("ap")) op.ap.push_back(static_cast<int>(q));
-  if (v.has("bp")) for (long long q : v.nums("bp")) op.bp.push_back(static_cast<int>(q));
-  if (v.has("ss")) for (long long q : v.nums("ss")) op.ss.push_back(static_cast<int>(q));
-  op.pos = v.num_or("pos", 0);
-  op.pos2 = v.num_or("pos2", 0);
-  op.x = v.num_or("x", 0);
-  op.rv = v.has("rv") ? v.at("rv").b : false;
-  return op;
-}
-
-}
+int c09_run_int(std::string const &, int, char **);
+int c09_run_str(std::string const &, int, char **);
+int c09_run_uptr(std::string const &, int, char **);
+int c09_run_tree(std::string const &, int, char **);
 
 int main(int argc, char **argv)
 {
   if (argc < 4)
   {
-    std::fprintf(stderr, "usage: c09_tree record OUT seed histories maxlen | replay SCRIPTS OUT\n");
+    std::fprintf(stderr, "usage: c09_tree record OUT seed histories maxlen [desc] [lt] | replay SCRIPTS OUT [lt stride phase]\n");
     return 3;
   }
   std::string const mode = argv[1];
-  if (mode == "record" && argc >= 6)
-  {
-    vj::open(argv[2]);
-    std::uint64_t const seed = std::strtoull(argv[3], nullptr, 10);
-    long const hist = std::strtol(argv[4], nullptr, 10);
-    long const maxlen = std::strtol(argv[5], nullptr, 10);
-    if (argc >= 7) drive_assign_from_descendant = std::strtol(argv[6], nullptr, 10) != 0;
-    for (long h = 0; h < hist; ++h)
-    {
-      vj::Rng r(seed * 1000003ULL + static_cast<std::uint64_t>(h));
-      begin_history(h);
-      // lengths 1..maxlen, biased towards the long ones (every fourth history is short)
-      long const lo = (h % 4 == 0 || maxlen < 8) ? 1 : maxlen / 2;
-      long const len = lo + static_cast<long>(r.below(static_cast<std::uint64_t>(maxlen - lo + 1)));
-      for (long i = 0; i < len; ++i)
-      {
-        Op op;
-        if (!gen(r, op)) break;
-        exec(op);
-      }
-      end_history();
-    }
-    vj::close();
-    return 0;
-  }
-  if (mode == "replay")
-  {
-    auto lines = vj::read_lines(argv[2]);
-    vj::open(argv[3]);
-    long h = 0;
-    for (auto const &l : lines)
-    {
-      vj::VP script = vj::parse(l);
-      begin_history(h++);
-      for (auto const &e : script->a) exec(from_json(*e));
-      end_history();
-    }
-    vj::close();
-    return 0;
-  }
+  std::string lt = "int";
+  if (mode == "record" && argc >= 6) { if (argc >= 8) lt = argv[7]; }
+  else if (mode == "replay") { if (argc >= 5) lt = argv[4]; }
+  else return 3;
+  if (lt == "int") return c09_run_int(mode, argc, argv);
+  if (lt == "str") return c09_run_str(mode, argc, argv);
+  if (lt == "uptr") return c09_run_uptr(mode, argc, argv);
+  if (lt == "tree") return c09_run_tree(mode, argc, argv);
   return 3;
 }
